@@ -2,9 +2,9 @@ package rules
 
 import (
 	"fmt"
+	"go/token"
 	"os"
 	"sort"
-	"go/token"
 	"strings"
 
 	"golang.org/x/tools/go/ssa"
@@ -311,7 +311,7 @@ func init() {
 			"C17-R1 who-invokes(RoundTimer.done) = {waitForRound}; facts-before ∋ {timer channel case, round equality, done≠nil, RLock}",
 			"C17-R2 who-references(RoundTimer.round); facts-before(go waitForRound) ∋ {store, timer reset with RoundTimeout(height, round)}",
 			"C17-R3 facts-before(UponRoundTimeout) and (TryPush in onTimeout)",
-			"C17-R4 return-expression shape of RoundTimeout",
+			"C17-R4 return-expression shape of RoundTimeout; normal form of the cumulative allowance and the comparison side selecting each form",
 		},
 		Trusted: []string{"Go runtime timers", "go/types + go/ssa"},
 		Run:     runC17,
